@@ -5,6 +5,25 @@ From AM Require Import Base.Prelude Base.Leb128 Gen.Consts Codec.Bloom Codec.Hex
   Codec.CursorCodec Codec.SyncCodec.
 Local Open Scope N_scope.
 
+(* compact byte-string literals for the case files: [hb len 0xHEX] is the big-endian base-256
+   expansion of the number, padded with leading zero bytes to len bytes (one numeral is far
+   cheaper to read than a list of them); linear in the number of bits *)
+Fixpoint pbytes (p : positive) (w cur : N) (k : nat) : bytes :=
+  match p with
+  | xH => [cur + w]
+  | xO q => match k with
+            | 7%nat => cur :: pbytes q 1 0 0
+            | _ => pbytes q (2 * w) cur (S k)
+            end
+  | xI q => match k with
+            | 7%nat => (cur + w) :: pbytes q 1 0 0
+            | _ => pbytes q (2 * w) (cur + w) (S k)
+            end
+  end.
+Definition hb (len : N) (n : N) : bytes :=
+  let l := match n with 0 => [] | Npos p => pbytes p 1 0 0 end in
+  rev (l ++ repeat 0 (N.to_nat len - length l)).
+
 Definition st_is {A} (r : res A) (st : N) (ok : A -> bool) : bool :=
   match r with
   | Ok a => (st =? 0) && ok a
